@@ -9,13 +9,94 @@ key-changing updates, relocating updates on 3 rows; commit or abort at the end) 
 of three transactions; after each schedule the committed table is read back by a fresh transaction
 through the scan path and the index path.  TLC validates every statement's answer (C04.dirty / hidden /
 wrong / final) and the acyclicity of the dependency graph of each schedule (C05.cycle)."""
-import os, collections
+import os, collections, json, random
 import vlib
 from vlib import Inconclusive
 from . import register
 from .common import judge, count_events
 
 FAM = "TxnModel"
+
+
+STMT = {"PointRead": "pread", "SeqRead": "sread", "Insert": "ins", "Delete": "del", "Update": "upd", "KeyUpdate": "kupd"}
+
+
+def graph_schedules(ctx, cfg, name):
+    """Schedules that together take every edge of the TwoPL state graph (explored under ShapeView: states without
+    version numbers and ghost bookkeeping; shared holders in grant order)."""
+    dot = os.path.join(ctx.work, name + ".dot")
+    vlib.model_check(ctx, "TwoPL", "TwoPL", cfg, workers=1, extra=["-dump", "dot,actionlabels", dot], name="graph-" + name, timeout=3000)
+    inits, nodes, edges = vlib.parse_dot(dot)
+    os.remove(dot)
+    # one schedule per edge (s, a): a shortest path to s, the edge, then an OBSERVATION suffix - every transaction
+    # still open reads every key through the index - and every open transaction ends (commit or abort, seeded).
+    # The suffix is what makes a wrongly granted write visible: after the implementation has left the path the
+    # specification predicts, the specification's own continuation would not look at the damage.
+    rng = random.Random(ctx.seed)
+    succ = collections.defaultdict(dict)
+    for s_, d_, l_ in edges:
+        succ[s_].setdefault(l_, d_)
+    pathto = {inits[0]: []}
+    q = collections.deque([inits[0]])
+    while q:
+        n_ = q.popleft()
+        for l_ in sorted(succ[n_]):
+            d_ = succ[n_][l_]
+            if d_ not in pathto:
+                pathto[d_] = pathto[n_] + [l_]
+                q.append(d_)
+    keys = sorted({int(vlib.parse_label(l_)[1][1]) for s_ in succ for l_ in succ[s_] if l_.startswith("PointRead")})
+    walks, total = [], 0
+    for s_ in succ:
+        if s_ not in pathto:
+            continue
+        for l_ in sorted(succ[s_]):
+            total += 1
+            if l_.startswith("Begin"):
+                continue
+            walks.append(pathto[s_] + [l_])
+    covered = total
+    out = []
+    for w in walks:
+        names = []
+        progs = {}
+        order = []
+        for a, args in (vlib.parse_label(l) for l in w):
+            t = args[0]
+            if t not in names:
+                names.append(t)
+                progs[t] = dict(stmts=[], commit=False)
+            ti = names.index(t)
+            if a == "Begin":
+                continue
+            if a in ("Commit", "Abort"):
+                progs[t]["commit"] = a == "Commit"
+                order.append(ti)
+                progs[t]["ended"] = True
+                continue
+            k = STMT[a]
+            A = int(args[1]) if len(args) > 1 else 0
+            B = 0
+            if k == "ins":
+                A = 10 + 10 * ti + (A - 10)        # distinct fresh keys per transaction (the contract model keeps keys unique)
+            if k == "kupd":
+                B = 20 + 10 * ti + A
+            progs[t]["stmts"].append([k, A, B])
+            order.append(ti)
+        open_ = [t for t in names if not progs[t].get("ended")]
+        for t in open_:                               # observation suffix
+            for k in keys:
+                progs[t]["stmts"].append(["pread", k, 0])
+                order.append(names.index(t))
+        for t in names:
+            if not progs[t].pop("ended", False):
+                progs[t]["commit"] = rng.random() < 0.6
+                order.append(names.index(t))
+        out.append(dict(progs=[progs[t] for t in names], order=order))
+    ctx.cov["graph_edges_" + name] = total
+    ctx.cov["graph_states_" + name] = len(nodes)
+    ctx.cov["graph_schedules_" + name] = len(out)
+    return out
 
 
 def run(ctx, prefixes):
@@ -33,9 +114,18 @@ def run(ctx, prefixes):
     if kf["rc"] == 0:
         raise Inconclusive("the as-coded TwoPL model no longer exhibits KF-C04-kupd-hides-row: model and known_findings.json disagree")
     tr = os.path.join(ctx.work, "txn.ndjson")
-    out = vlib.vdrive(ctx, ["txn", "sched", tr, 6000 if thorough else 260, 600 if thorough else 40], timeout=3400, ok_codes=(0, 3))
+    out = vlib.vdrive(ctx, ["txn", "sched", tr, 6000 if thorough else 160, 600 if thorough else 30], timeout=3400, ok_codes=(0, 3))
     res = vlib.validate(ctx, FAM, "TxnModelTrace", "Trace.cfg", tr, name="val-txn", timeout=3400, jvm=("-Xmx8g",))
     judge(ctx, res, tr, "statement-level schedules", prefixes=prefixes)
+    # spec -> code: schedules that take every edge of the TwoPL state graph, performed on the real engine
+    for cfg, name in ([("MC_walk1.cfg", "1key"), ("MC_walk2.cfg", "2keys"), ("MC_walk1_3.cfg", "1key3stmt")] if thorough else [("MC_walk1.cfg", "1key")]):
+        sch = graph_schedules(ctx, cfg, name)
+        wf = os.path.join(ctx.work, name + "-sched.json")
+        json.dump(sch, open(wf, "w"))
+        wtr = os.path.join(ctx.work, name + "-walk.ndjson")
+        vlib.vdrive(ctx, ["txn", "walk", wf, wtr], timeout=3400, ok_codes=(0, 3))
+        wres = vlib.validate(ctx, FAM, "TxnModelTrace", "Trace.cfg", wtr, name="val-walk-" + name, timeout=3400, jvm=("-Xmx8g",))
+        judge(ctx, wres, wtr, "TwoPL graph schedules " + name, prefixes=prefixes)
     c = count_events(tr)
     kinds = collections.Counter()
     outcomes = collections.Counter()
